@@ -5,7 +5,8 @@ ID = 'C21'
 TECHNIQUE = ('visitor dispatch resolution along the MRO; path-sensitive push/pop and save/restore dataflow over the ControlFlowAnalysis handlers; '
              'decision-table extraction by evaluating the summariser code of check_definitions / ControlFlowState over the COMPLETE finite domain of reaching sets '
              '(16 subsets of {Uninitialized, Unknown, assignment1, assignment2}); partial evaluation of NameNode code generation under the definedness flags; '
-             'information-flow (channel) check of the type inferer')
+             'information-flow (channel) check of the type inferer; partial evaluation of the loop statement nodes\' generate_execution_code (sa/rules/sC14.Emu) and a check of the '
+             'emitted statement sequence of every path (where the loop target is assigned relative to the braces of the emitted C loop)')
 DECIDES = ('C21-ABS: every instantiated node class below a ControlFlowAnalysis handler that only raises (visit_LoopNode, visit_AssignmentNode) dispatches to a specific handler. '
            'C21-V3: in every ControlFlowAnalysis method the pushes/pops on self.flow.loops, self.flow.exceptions, loops[-1].exceptions, self.stack and the in_try_block counter '
            'balance on every normal path (helpers with a uniform effect are summarised at their call sites), and visitor attributes saved to a local / swapped / pushed as a tuple '
@@ -14,7 +15,10 @@ DECIDES = ('C21-ABS: every instantiated node class below a ControlFlowAnalysis h
            'neither Uninitialized nor Unknown reaches, and cf_is_null True only when exactly {Uninitialized} reaches. '
            'C21-DEF: NameNode class defaults are cf_maybe_null=True / cf_is_null=False; in each NameNode method that emits put_error_if_unbound the check is emitted for cf_is_null '
            'under the same residual conditions as for cf_maybe_null, and it is not emitted identically for definitely bound references. '
-           'C21-INFER: SimpleAssignmentTypeInferer.infer_types reads a definedness fact (or an entry attribute FlowControl derives from one) before committing a non-object type.')
+           'C21-INFER: SimpleAssignmentTypeInferer.infer_types reads a definedness fact (or an entry attribute FlowControl derives from one) before committing a non-object type. '
+           'C21-LOOPVAR: the code generators of the for-loop statement nodes (ForFromStatNode in the from_range mode IterationTransform uses for range(), _ForInStatNode) bind the loop target inside '
+           'the emitted loop before the body on every path and emit no assignment to it after the loop: a loop that runs zero times leaves the variable exactly as the flow analysis assumes '
+           '(unbound stays unbound), an exhausted loop leaves the last item; the C counter of a range() loop is never re-read from the target.')
 NOT_DECIDED = ('the reaching-definitions fixpoint and the shape of the control-flow graph each handler builds (which blocks are linked) are not decided. '
                'The design clause "every node class whose code generation uses labels/gotos has a specific handler" was dropped: on today\'s tree 8 label-using classes '
                '(DivNode, SequenceNode, YieldExprNode, BoolBinopResultNode, IfClauseNode, ExceptClauseNode, MatchCaseNode, StarExceptTestSetupNode) are correctly handled by the '
@@ -49,6 +53,11 @@ MUTATIONS = [
     ('Cython/Compiler/ExprNodes.py', 'generate_result_code: raise_unbound = self.cf_is_null and not self.allow_null', 'C21-DEF generate_result_code:is_null-as-checked-as-maybe_null + depends-on-maybe_null'),
     ('Cython/Compiler/ExprNodes.py', 'generate_result_code: drop raise_unbound from the emitting test', 'C21-DEF generate_result_code:depends-on-maybe_null'),
     ('Cython/Compiler/ExprNodes.py', 'generate_deletion_code: `if self.cf_maybe_null and not ignore_nonexisting` -> `if not ignore_nonexisting`', 'C21-DEF generate_deletion_code:depends-on-maybe_null'),
+    ('Cython/Compiler/Nodes.py', 'SEED C21b: ForFromStatNode post-loop assignment `if not from_range and self.py_loopvar_node` -> `if self.py_loopvar_node`', 'C21-LOOPVAR ForFromStatNode[from_range]:after-loop'),
+    ('Cython/Compiler/Nodes.py', 'the same after extracting the assignment into a helper method that is then called unconditionally', 'C21-LOOPVAR ForFromStatNode[from_range]:after-loop'),
+    ('Cython/Compiler/Nodes.py', 'counter re-synchronisation guard `not from_range and` dropped', 'C21-LOOPVAR ForFromStatNode[from_range]:counter'),
+    ('Cython/Compiler/Nodes.py', 'RawCNameExprNode for C targets only `if ... and not from_range`', 'C21-LOOPVAR ForFromStatNode[from_range]:in-loop'),
+    ('Cython/Compiler/Nodes.py', '_ForInStatNode: `self.target.generate_assignment_code(self.item, code)` moved behind the closing brace', 'C21-LOOPVAR _ForInStatNode:in-loop + after-loop'),
     # repairs of the two findings make the corresponding violation disappear (and it comes back when the repair is reverted)
     ('Cython/Compiler/ExprNodes.py', 'REPAIR generate_deletion_code: emit put_error_if_unbound also under `self.cf_is_null and not ignore_nonexisting`', 'C21-DEF silent'),
     ('Cython/Compiler/TypeInference.py', 'REPAIR inferred_types: append py_object_type when any reference has cf_maybe_null', 'C21-INFER silent'),
@@ -63,6 +72,8 @@ SILENT_EDITS = [   # behaviour-preserving, reported nothing new
     'ControlFlowState.__init__: `if not state` written as `if len(state) == 0`',
     'generate_deletion_code: operands of `self.cf_maybe_null and not ignore_nonexisting` swapped',
     'visit_AssignmentExpressionNode: save to a local instead of the tuple swap',
+    'ForFromStatNode: post-loop assignment moved into a helper method called under `if not from_range:`; guard written `pyrex_loop = not self.from_range; if not (not pyrex_loop or self.py_loopvar_node is None)`',
+    'ForFromStatNode: in-loop assignment restructured (`item_node`, `if item_node is None: pass / else:`)',
 ]
 
 
